@@ -19,6 +19,7 @@ from concurrent.futures import ThreadPoolExecutor
 from vlib import *
 import modgen, widegen
 import c10_regions
+import c10_refs
 
 STRICT = "-std=c99 -Wall -Werror=implicit-function-declaration -Werror=incompatible-pointer-types"
 ALL_OPTS = ["-fcompound-names", "-fwide-types", "-findirect-choice", "-fno-constraints", "-no-gen-PER", "-no-gen-OER", "-fincludes-quoted"]
@@ -236,6 +237,7 @@ def corpus(rng, tier):
         mods.append(m)
     mods += special_modules()
     mods += c10_regions.regions(rng, tier)
+    mods += c10_refs.ref_modules(rng, tier)      # round 3: type references as a swept dimension
     mods += invalid_modules()
     k = 0
     for i in range(ninj * 3):
@@ -558,15 +560,17 @@ def parse_dump(text):
 
 
 def gen_descr_v(path, tables):
-    """tables: [(label, gen_per, gen_oer, [terms])]; writes one file with one obligation per table"""
+    """tables: [(label, gen_per, gen_oer, [terms], [xinfo terms], [hop terms])]; writes one file with one obligation per table:
+    wf_x (Rt/WfAlias.v) = wf_descr_all of the table + the reference hops + the member tags of every use position"""
     with open(path, "w") as f:
         f.write("(* generated by checks/c10.py from harness/dumpdescr.c output: do not edit *)\n")
-        f.write("From Coq Require Import ZArith List Bool.\nFrom A1 Require Import Rt.WfDescr.\nImport ListNotations.\nOpen Scope Z_scope.\n\n")
-        for k, (label, per, oer, terms) in enumerate(tables):
+        f.write("From Coq Require Import ZArith List Bool.\nFrom A1 Require Import Rt.WfDescr Rt.WfAlias.\nImport ListNotations.\nOpen Scope Z_scope.\n\n")
+        for k, (label, per, oer, terms, xi, hp) in enumerate(tables):
             f.write("Definition tab_%d : table := mkTab %s %s [\n  %s\n].\n" % (k, "true" if per else "false", "true" if oer else "false", ";\n  ".join(terms)))
-            f.write("Definition diag_%d := Eval vm_compute in (diagnose tab_%d).\nPrint diag_%d.\n" % (k, k, k))
+            f.write("Definition xtab_%d : xtable := mkXT tab_%d [%s]\n  [%s].\n" % (k, k, "; ".join(xi), "; ".join(hp)))
+            f.write("Definition diag_%d := Eval vm_compute in (diagnose_x xtab_%d).\nPrint diag_%d.\n" % (k, k, k))
         for k in range(len(tables)):
-            f.write("Lemma descr_ok_%d : wf_descr_all tab_%d = true.\nProof. vm_compute. reflexivity. Qed.\n" % (k, k))
+            f.write("Lemma descr_ok_%d : wf_x xtab_%d = true.\nProof. vm_compute. reflexivity. Qed.\n" % (k, k))
         f.write("Definition all_ok := (%s).\nPrint Assumptions all_ok.\n" % ", ".join("descr_ok_%d" % k for k in range(len(tables))))
 
 
@@ -575,7 +579,7 @@ def parse_diag(out, ntables):
     res = {}
     for m in re.finditer(r"diag_(\d+) =\s*(.*?)\s*:\s*list", out, flags=re.S):
         body = m.group(2)
-        res[int(m.group(1))] = [(int(a), int(b)) for a, b in re.findall(r"\((\d+),\s*(\d+)\)", body)]
+        res[int(m.group(1))] = [(int(a), int(b)) for a, b in re.findall(r"\((-?\d+),\s*(\d+)\)", body)]
     return res
 
 
